@@ -122,6 +122,8 @@ func checkC09(c *Ctx) {
 	c.checkTailCallShape()
 	c.checkLoopScopeDepth("ES-S")
 	c.checkTailArity("C09-ARITY")
+	c.checkGeneratorCtors("ES-CTOR")
+	c.checkRegisteredBeforeBody("C09-REG")
 }
 
 // checkTailArity: the tail self-call jumps past CallFunction, which is where an
@@ -215,6 +217,8 @@ func checkC04(c *Ctx) {
 	c.checkLoopScopeDepth("ES-S")
 	c.checkRunBrackets()
 	c.checkStackmarkIdentity("C04-MARK")
+	c.checkGeneratorCtors("ES-CTOR")
+	c.checkParserStopOrder("C04-STOP")
 }
 
 func (c *Ctx) checkRunBrackets() {
@@ -298,6 +302,7 @@ func checkC02(c *Ctx) {
 	c.checkIX("", "C02-PC")
 	c.checkStackmarkIdentity("C02-MARK")
 	c.checkMapOrder("C02-MAP")
+	c.checkGeneratorCtors("ES-CTOR")
 	// ---- C02-ORD
 	if f := c.mustFn("C02-ORD", "CallExprInstr.Execute"); f != nil {
 		ev := c.fn("Zlisp.EvalCallExpression")
